@@ -114,7 +114,14 @@ type Guard struct {
 	For     []string
 }
 
+type ghostQual struct {
+	DeclPkg, Alias, Type, Field string
+	Ty                          *TypeExpr
+}
+
 type SpecSet struct {
+	GhostQualified []ghostQual
+	GhostDeclPkg   map[string]map[string]string // type key -> field -> package whose imports resolve the field's type
 	Contracts map[string]map[string]*Contract // pkgpath -> key -> contract
 	Funcs     map[string]map[string]*SpecFunc // pkgpath -> name
 	Lemmas    map[string]map[string]*Lemma
@@ -341,6 +348,12 @@ func (ss *SpecSet) LoadContractFile(path, pkgPath string) error {
 			}
 			p := &parser{toks: toks}
 			ty := p.parseType()
+			if len(tf) == 3 {
+				// alias.Type.field: ghost state attached to a type of an imported package; the
+				// alias is resolved once the packages are loaded
+				ss.GhostQualified = append(ss.GhostQualified, ghostQual{DeclPkg: pkgPath, Alias: tf[0], Type: tf[1], Field: tf[2], Ty: ty})
+				continue
+			}
 			k := pkgPath + "." + tf[0]
 			if ss.GhostFlds[k] == nil {
 				ss.GhostFlds[k] = map[string]*TypeExpr{}
